@@ -1,0 +1,57 @@
+//go:build verif
+
+package pongo2
+
+import "sort"
+
+// Verification hooks (build tag "verif"). This file only adds read-only
+// introspection for the external verification harness; it is not compiled
+// into normal builds.
+
+// VerifToken is an exported copy of a lexer token.
+type VerifToken struct {
+	Typ             int
+	Val             string
+	Line            int
+	Col             int
+	TrimWhitespaces bool
+}
+
+// VerifRegisteredTags returns the sorted names of all registered tags.
+func VerifRegisteredTags() []string {
+	names := make([]string, 0, len(tags))
+	for name := range tags {
+		names = append(names, name)
+	}
+	sort.Strings(names)
+	return names
+}
+
+// VerifRegisteredFilters returns the sorted names of all registered filters.
+func VerifRegisteredFilters() []string {
+	names := make([]string, 0, len(filters))
+	for name := range filters {
+		names = append(names, name)
+	}
+	sort.Strings(names)
+	return names
+}
+
+// VerifLex runs the lexer on src and returns its tokens (or its error).
+func VerifLex(name, src string) ([]VerifToken, *Error) {
+	toks, err := lex(name, src)
+	if err != nil {
+		return nil, err
+	}
+	out := make([]VerifToken, 0, len(toks))
+	for _, t := range toks {
+		out = append(out, VerifToken{
+			Typ:             int(t.Typ),
+			Val:             t.Val,
+			Line:            t.Line,
+			Col:             t.Col,
+			TrimWhitespaces: t.TrimWhitespaces,
+		})
+	}
+	return out, nil
+}
